@@ -5,7 +5,9 @@ From Coq Require Import List Arith NArith ZArith Extraction ExtrOcamlBasic.
 From CelloV Require Import Generated Lifecycle.
 
 Definition lc_init : st := init.
-Definition lc_step : st -> ev -> st := step gc_mitems_rule gc_rem_pending_finalises gc_sweep_nulls_first gc_set_defers_in_sweep.
+(* win = the objects whose destructor opens a stop/start window of its own (from the case text) *)
+Definition lc_step (win : nat -> bool) : st -> ev -> st :=
+  step gc_mitems_rule gc_rem_pending_finalises gc_sweep_nulls_first gc_set_defers_in_sweep (dwin win gc_start_stop_keep_pending).
 Definition lc_will_sweep : st -> ev -> bool := will_sweep.
 Definition lc_fin := fin_count.
 Definition lc_free := free_count.
@@ -19,14 +21,15 @@ Definition lc_shape := gc_life_shape.
 Definition lc_rule : nat -> nat := gc_mitems_rule.
 Definition lc_keep_step := keep_step.
 Definition lc_s_in := s_in.
-Definition lc_terminate : route -> list nat -> st -> st :=
-  terminate gc_mitems_rule gc_rem_pending_finalises gc_sweep_nulls_first gc_set_defers_in_sweep main_registers_atexit main_tears_down_after_return exception_error_exits.
+Definition lc_terminate (win : nat -> bool) : route -> list nat -> st -> st :=
+  terminate gc_mitems_rule gc_rem_pending_finalises gc_sweep_nulls_first gc_set_defers_in_sweep (dwin win gc_start_stop_keep_pending) main_registers_atexit main_tears_down_after_return exception_error_exits.
 Definition lc_main_atexit := main_registers_atexit.
 Definition lc_main_after := main_tears_down_after_return.
 Definition lc_err_exit := exception_error_exits.
+Definition lc_start_keep := gc_start_stop_keep_pending.
 (* ocaml/conv.ml.inc mentions the types positive, N and Z *)
 Definition lc_z0 : Z := 0%Z.
 Definition lc_n0 : N := 0%N.
 
 Extraction Language OCaml.
-Extraction "../ocaml/gen/Lifecycle.ml" lc_init lc_step lc_will_sweep lc_fin lc_free lc_nitems lc_sp_init lc_sp_step lc_rem_fix lc_sweep_fix lc_defer_fix lc_shape lc_rule lc_keep_step lc_s_in lc_terminate lc_main_atexit lc_main_after lc_err_exit lc_z0 lc_n0.
+Extraction "../ocaml/gen/Lifecycle.ml" lc_init lc_step lc_will_sweep lc_fin lc_free lc_nitems lc_sp_init lc_sp_step lc_rem_fix lc_sweep_fix lc_defer_fix lc_shape lc_rule lc_keep_step lc_s_in lc_terminate lc_main_atexit lc_main_after lc_err_exit lc_start_keep lc_z0 lc_n0.
